@@ -12,13 +12,22 @@ type zzSignal struct {
 	name  string
 }
 
-type zzSignals struct{ log []zzSignal }
+type zzSignals struct {
+	log  []zzSignal
+	slow bool // emitting takes time: other goroutines may run meanwhile
+}
 
 func (s *zzSignals) SignalServiceAdded(id uint32, name string) error {
+	if s.slow {
+		sym.Yield()
+	}
 	s.log = append(s.log, zzSignal{true, id, name})
 	return nil
 }
 func (s *zzSignals) SignalServiceRemoved(id uint32, name string) error {
+	if s.slow {
+		sym.Yield()
+	}
 	s.log = append(s.log, zzSignal{false, id, name})
 	return nil
 }
@@ -249,4 +258,34 @@ func C15Concurrent() {
 	sym.Assert(len(d.staging) == 2, "concurrent/registration-lost")
 	sym.Assert(d.lastID == 2, "concurrent/lastID")
 	sym.Reach("concurrent-done")
+}
+
+// C15ConcurrentSignals: ready and unregister of the same service race (local path vs remote path):
+// the emitted events must be explained by one of the two serial orders: [added, removed] when ready
+// came first, nothing when unregister came first (ready then fails).
+func C15ConcurrentSignals() {
+	sym.RacyScope("bus/directory.")
+	d := serviceDirectoryImpl()
+	sig := &zzSignals{slow: true}
+	d.signal = sig
+	id, err := d.RegisterService(zzInfo("svc", 0))
+	sym.Assert(err == nil, "signals/register")
+	done := make(chan bool, 2)
+	var errReady, errUnreg error
+	go func() { errReady = d.ServiceReady(id); done <- true }()
+	go func() { errUnreg = d.UnregisterService(id); done <- true }()
+	<-done
+	<-done
+	sym.Assert(errUnreg == nil, "signals/unregister-failed")
+	if errReady == nil {
+		sym.Assert(len(sig.log) == 2, "signals/transition-without-its-event")
+		if len(sig.log) == 2 {
+			sym.Assert(sig.log[0].added && !sig.log[1].added, "signals/events-out-of-transition-order")
+		}
+	} else {
+		sym.Assert(len(sig.log) == 0, "signals/event-without-transition")
+	}
+	_, lookupErr := d.Service("svc")
+	sym.Assert(lookupErr != nil, "signals/service-visible-after-unregister")
+	sym.Reach("signals-done")
 }
